@@ -239,6 +239,7 @@ class Run:
             return
         if cid is not None:
             self.reply_at[cid] = (self.loop.time(), kind)
+            self.note('A', cid)
         self.proto.data_received(data)
 
     def flush(self):
@@ -566,6 +567,90 @@ def monitor_ops(run):
     return ops, want
 
 
+def timed_ops(run):
+    """the environment's actions of a workload as operations of the timed model (`drv_c20 T`): calls,
+    deliveries of proper answers, the loss of the connection, separated by waits; None when the
+    workload contains what the timed model does not cover (blocked writes, callers cancelled by
+    their owner)"""
+    wl = run.wl
+    if wl.get('pauses') or wl.get('cancels'):
+        return None
+    callers = {c['id']: c for c in wl['callers']}
+    ops, now = [], 0.0
+    for kind, cid, t, _lim, _extra in run.log:
+        if kind not in ('s', 'A', 'L'):
+            continue
+        if t > now:
+            ops.append(f'w{fr(t - now)}')
+            now = t
+        if kind == 's':
+            c = callers[cid]
+            if c['kind'] == 'batch' and not any(c['items']):
+                continue            # notifications only: sent without a slot, nothing to wait for
+            ops.append(f'c{cid}:{count_of(c)}')
+        elif kind == 'A':
+            ops.append(f'a{cid}')
+        else:
+            ops.append('l')
+            break
+    n = len(wl['callers'])
+    ops.append(f"w{fr((n + 3) * (wl['cfg']['timeout'] + 1) + 10)}")
+    return ops
+
+
+def compare_timed(res, case, run_info, mline):
+    """per caller: when written, when and how the call ended - implementation vs timed model"""
+    written, done, ties, outside = run_info
+    m_w, m_e = {}, {}
+    for tok in mline.split():
+        if tok[0] == 'W':
+            i, t = tok[1:].split('@')
+            m_w.setdefault(int(i), F(t))
+        elif tok[0] == 'E':
+            i, rest = tok[1:].split('@')
+            t, k = rest.split(':')
+            m_e.setdefault(int(i), (F(t), k))
+    kind_of = {'result': 'A', 'error': 'A', 'timeout': 'T', 'cancelled': 'C'}
+    for cid, (t, out) in sorted(done.items()):
+        if cid in outside:
+            continue
+        got = (written.get(cid), t, kind_of.get(out[0], '?'))
+        mw, me = m_w.get(cid), m_e.get(cid)
+        ok = me is not None and me[1] == got[2] and abs(float(me[0]) - t) <= 1e-9 \
+            and ((mw is None) == (got[0] is None)) and (mw is None or abs(float(mw) - got[0]) <= 1e-9)
+        if not ok:
+            if ties:
+                res.count('timed_model_skipped_same_instant_events')
+            else:
+                res.disagreement(case, f'caller {cid}: written {got[0]}, ended {got[1]} {got[2]}',
+                                 f'timed model: written {None if mw is None else float(mw)}, '
+                                 f'ended {None if me is None else (float(me[0]), me[1])}')
+            return
+    res.count('timed_model_workloads_agreeing')
+
+
+def timed_info(run):
+    """what is compared, and whether two different kinds of events fall on the same instant (then the
+    order in which the loop delivers them is not determined and the comparison is skipped)"""
+    done = {}
+    for kind, cid, t, _lim, extra in run.log:
+        if kind == 'd':
+            done[cid] = (t, extra)
+    timeout = run.wl['cfg']['timeout']
+    deadlines = {round(tw + timeout, 9) for tw in run.written.values()}
+    answers = {round(ra[0], 9) for ra in run.reply_at.values()}
+    starts = {round(c['start'], 9) for c in run.wl['callers']}
+    lost = {round(run.lost_at, 9)} if run.lost_at is not None else set()
+    ties = bool(deadlines & answers or deadlines & lost or answers & lost or starts & lost
+                or starts & deadlines or starts & answers)
+    # outside the timed model: batches of notifications only (no slot, no wait), calls made after the
+    # connection was lost
+    outside = {c['id'] for c in run.wl['callers']
+               if (c['kind'] == 'batch' and not any(c['items']))
+               or (run.lost_at is not None and c['start'] >= run.lost_at - 1e-12)}
+    return dict(run.written), done, ties, outside
+
+
 def fmt_list(l):
     return '.'.join(str(x) for x in l) if l else '-'
 
@@ -783,7 +868,7 @@ def _wl_batch(wls):
         run.go()
         verdict, stats = judge(run)
         ops, want = monitor_ops(run)
-        out.append((verdict, stats, ops, want))
+        out.append((verdict, stats, ops, want, timed_ops(run), timed_info(run)))
     return out
 
 
@@ -801,17 +886,23 @@ def _pmap(ctx, fn, cases, chunk=20):
 
 def evaluate_workloads(ctx, res, wls, scope):
     results = _pmap(ctx, _wl_batch, wls)
-    lines = []
-    for wl, (_v, _s, ops, _w) in zip(wls, results):
+    lines, tlines, tidx = [], [], {}
+    for k, (wl, (_v, _s, ops, _w, tops, _ti)) in enumerate(zip(wls, results)):
         cfg = wl['cfg']
         lines.append(f"M 50 {fr(cfg['trt'])} {cfg['recal']} | " + ' '.join(ops))
+        if tops is not None:
+            tidx[k] = len(tlines)
+            tlines.append(f"T 50 {fr(cfg['trt'])} {cfg['recal']} {fr(cfg['timeout'])} | " + ' '.join(tops))
     model = ctx.model(lines)
-    for idx, (wl, (verdict, stats, ops, want)) in enumerate(zip(wls, results)):
+    tmodel = ctx.model(tlines) if tlines else []
+    for idx, (wl, (verdict, stats, ops, want, tops, tinfo)) in enumerate(zip(wls, results)):
         case = {'level': 'workload', 'workload': wl}
         if verdict:
             res.violation(verdict[0], case, verdict[1])
         if model is not None:
             compare_monitor(res, case, wl['cfg'], ops, want, model[idx])
+        if tmodel is not None and idx in tidx and not verdict:
+            compare_timed(res, case, tinfo, tmodel[tidx[idx]])
         res['evaluations'] += 1
         res.count(f'{scope}_workloads')
         res.count('callers', len(wl['callers']))
